@@ -5,8 +5,8 @@ package main
 
 import (
 	"fmt"
-	"go/types"
 	"math/big"
+	"go/types"
 	"sort"
 	"strings"
 	"sync"
@@ -62,6 +62,7 @@ type PathResult struct {
 	NMerged     int
 	Stubs       map[string]int
 	Known       map[string]int
+	ModelMismatch int
 }
 
 type Machine struct {
@@ -99,6 +100,9 @@ type Machine struct {
 
 	knownActive map[string]*Term // known-finding predicates currently asserted as excluded
 	knownKeys   map[string]bool
+	model       Model // a model of the current path condition, or nil
+	noCache     bool
+	noConcretize map[*Term]bool
 	tier        string
 	fresh       int
 }
@@ -108,6 +112,7 @@ type HarnessCfg struct {
 	TimeoutMs int
 	MaxSteps  int
 	MaxPaths  int
+	FeasTimeoutMs int
 }
 
 func NewMachine(prog *ssa.Program, sh *Shared, sol *Solver, cfg *HarnessCfg, harness string) *Machine {
@@ -115,6 +120,7 @@ func NewMachine(prog *ssa.Program, sh *Shared, sol *Solver, cfg *HarnessCfg, har
 	m.sizes = types.SizesFor("gc", "amd64")
 	m.ctx = NewCtx()
 	m.em = NewEmitter(cfg.Lowering)
+	m.em.ctx = m.ctx
 	m.globals = map[*ssa.Global]Loc{}
 	m.fns = map[*ssa.Function]bool{}
 	m.choices = map[string]int{}
@@ -125,6 +131,7 @@ func NewMachine(prog *ssa.Program, sh *Shared, sol *Solver, cfg *HarnessCfg, har
 	m.env = NewEnv(m)
 	m.res = &PathResult{Reach: map[string]bool{}, Stubs: map[string]int{}, Known: map[string]int{}}
 	m.knownActive = map[string]*Term{}
+	m.noConcretize = map[*Term]bool{}
 	return m
 }
 
@@ -167,7 +174,95 @@ func (m *Machine) assertPC(c *Term) {
 	m.ctx.tighten(c)
 	n := m.em.Name(c)
 	m.sol.Assert(m.em.take(), n)
+	m.keepModelIf(c)
 }
+
+// keepModelIf drops the cached model unless it satisfies the newly added conjunct.
+func (m *Machine) keepModelIf(c *Term) {
+	if m.model == nil {
+		return
+	}
+	if v, ok := evalBool(c, m.model); !ok || !v {
+		m.model = nil
+	}
+}
+
+// modelSays evaluates c under the cached model.
+func (m *Machine) modelSays(c *Term) (val bool, ok bool) {
+	if m.model == nil || m.noCache {
+		return false, false
+	}
+	return evalBool(c, m.model)
+}
+
+func (m *Machine) modelStrings(md Model) map[string]string {
+	out := map[string]string{}
+	for _, v := range m.ctx.Vars {
+		if strings.HasPrefix(v.Name, "$") {
+			continue
+		}
+		if val, ok := md[v]; ok {
+			out[v.Name] = val.String()
+		} else {
+			out[v.Name] = "0"
+		}
+	}
+	return out
+}
+
+// checkModel: like check, but returns a parsed model (validated against the IR semantics).
+func (m *Machine) checkModel(extra *Term) (SatResult, Model) {
+	if extra.IsFalse() {
+		return RUnsat, nil
+	}
+	n := m.em.Name(extra)
+	var vars []string
+	var vts []*Term
+	for _, v := range m.ctx.Vars {
+		if sn, ok := m.em.names[v]; ok {
+			vars = append(vars, sn)
+			vts = append(vts, v)
+		}
+	}
+	m.sol.SetTimeout(m.cfg.FeasTimeoutMs)
+	r, model, errs := m.sol.Check(m.em.take(), []string{n}, true, vars)
+	if errs != "" {
+		m.res.Incon = append(m.res.Incon, "solver error: "+errs)
+	}
+	if r != RSat {
+		return r, nil
+	}
+	md := Model{}
+	for i, v := range vts {
+		if val, ok := model[vars[i]]; ok {
+			if bi, ok := parseSMTInt(val); ok {
+				if v.Sort.K == KInt {
+					bi = wrapBig(bi, v.Sort)
+				}
+				md[v] = bi
+			}
+		}
+	}
+	// validate: the model must satisfy PC and extra under the IR semantics
+	good := true
+	if v, ok := evalBool(extra, md); !ok || !v {
+		good = false
+	}
+	for _, c := range m.pc {
+		if !good {
+			break
+		}
+		if v, ok := evalBool(c, md); !ok || !v {
+			good = false
+		}
+	}
+	if !good {
+		m.res.ModelMismatch++
+		return r, nil
+	}
+	return r, md
+}
+
 
 // check: is PC ∧ extra satisfiable?
 func (m *Machine) check(extra *Term, wantModel bool) (SatResult, map[string]string) {
@@ -183,13 +278,25 @@ func (m *Machine) check(extra *Term, wantModel bool) (SatResult, map[string]stri
 			}
 		}
 	}
+	tq := time.Now()
+	if wantModel {
+		m.sol.SetTimeout(m.cfg.TimeoutMs)
+	} else {
+		m.sol.SetTimeout(m.cfg.FeasTimeoutMs)
+	}
 	r, model, errs := m.sol.Check(m.em.take(), []string{n}, wantModel, vars)
+	if slowLog != nil && time.Since(tq) > 500*time.Millisecond {
+		slowLog(fmt.Sprintf("%.1fs %s at %s choices=%v query=%s", time.Since(tq).Seconds(), r, m.position(), m.choices, extra.String()))
+	}
 	if errs != "" {
 		m.res.Incon = append(m.res.Incon, "solver error: "+errs)
 	}
 	if r == RSat && wantModel {
 		out := map[string]string{}
 		for _, v := range m.ctx.Vars {
+			if strings.HasPrefix(v.Name, "$") {
+				continue
+			}
 			sn, ok := m.em.names[v]
 			if !ok {
 				// variable never reached the solver: unconstrained, pick zero
@@ -232,10 +339,19 @@ func (m *Machine) branch(c *Term) bool {
 		mc.dpos++
 		if d == 0 {
 			mc.guard = m.ctx.And(mc.guard, c)
+			m.ctx.Learn(c)
 			return true
 		}
-		mc.guard = m.ctx.And(mc.guard, m.ctx.Not(c))
+		nc := m.ctx.Not(c)
+		mc.guard = m.ctx.And(mc.guard, nc)
+		m.ctx.Learn(nc)
 		return false
+	}
+	if nc, ok := m.concretizeCmp(c); ok {
+		if nc.IsConst() {
+			return nc.V.Sign() != 0
+		}
+		c = nc
 	}
 	m.res.Branches++
 	if m.dpos < len(m.decisions) {
@@ -253,7 +369,29 @@ func (m *Machine) branch(c *Term) bool {
 		}
 		return d.Val == 1
 	}
-	rt, _ := m.check(c, false)
+	if v, ok := m.modelSays(c); ok {
+		side, other := c, m.ctx.Not(c)
+		if !v {
+			side, other = other, c
+		}
+		dv := 0
+		if v {
+			dv = 1
+		}
+		ro, _ := m.check(other, false)
+		if ro == RUnsat {
+			m.recordDecision(dv, true)
+			m.pc = append(m.pc, side)
+			m.ctx.tighten(side)
+			return v
+		}
+		alt := append(append([]Decision(nil), m.decisions...), Decision{1 - dv, false})
+		m.forks = append(m.forks, alt)
+		m.recordDecision(dv, false)
+		m.assertPC(side)
+		return v
+	}
+	rt, md := m.checkModel(c)
 	if rt == RUnsat {
 		m.recordDecision(0, true)
 		nc := m.ctx.Not(c)
@@ -266,6 +404,9 @@ func (m *Machine) branch(c *Term) bool {
 		m.recordDecision(1, true)
 		m.pc = append(m.pc, c)
 		m.ctx.tighten(c)
+		if md != nil {
+			m.model = md
+		}
 		return true
 	}
 	// both feasible (or unknown): fork
@@ -273,22 +414,35 @@ func (m *Machine) branch(c *Term) bool {
 	m.forks = append(m.forks, alt)
 	m.recordDecision(1, false)
 	m.assertPC(c)
+	if md != nil {
+		m.model = md
+	}
 	return true
 }
 
 // chooseInt resolves term t (already known to lie in [lo,hi] on this path) to a concrete value.
 func (m *Machine) chooseInt(t *Term, lo, hi int) int {
+	v, _ := m.chooseIntX(t, lo, hi, 64, false)
+	return v
+}
+
+// chooseIntX: maxVals bounds the number of feasible values; if soft and exceeded (or the
+// solver cannot enumerate), returns ok=false without forking.
+func (m *Machine) chooseIntX(t *Term, lo, hi int, maxVals int, soft bool) (int, bool) {
+	t = m.ctx.sub(t)
 	if c, ok := t.ConstInt64(); ok {
-		return int(c)
+		return int(c), true
 	}
 	if m.merge != nil {
 		panic(mergeAbort{"symbolic index/size"})
 	}
-	if t.ILo.IsInt64() && int(t.ILo.Int64()) > lo {
-		lo = int(t.ILo.Int64())
-	}
-	if t.IHi.IsInt64() && int(t.IHi.Int64()) < hi {
-		hi = int(t.IHi.Int64())
+	if iv := m.ctx.IV(t); true {
+		if iv.Lo.IsInt64() && int(iv.Lo.Int64()) > lo {
+			lo = int(iv.Lo.Int64())
+		}
+		if iv.Hi.IsInt64() && int(iv.Hi.Int64()) < hi {
+			hi = int(iv.Hi.Int64())
+		}
 	}
 	m.res.Branches++
 	eqc := func(v int) *Term { return m.ctx.Eq(t, m.ctx.IntI(t.Sort, int64(v))) }
@@ -296,11 +450,12 @@ func (m *Machine) chooseInt(t *Term, lo, hi int) int {
 		d := m.decisions[m.dpos]
 		m.dpos++
 		m.assertPC(eqc(d.Val))
-		return d.Val
+		m.ctx.subst[t] = m.ctx.IntI(t.Sort, int64(d.Val))
+		return d.Val, true
 	}
 	// enumerate feasible values
 	var feas []int
-	if hi-lo <= 32 {
+	if hi-lo <= 6 {
 		for v := lo; v <= hi; v++ {
 			r, _ := m.check(eqc(v), false)
 			if r != RUnsat {
@@ -310,18 +465,34 @@ func (m *Machine) chooseInt(t *Term, lo, hi int) int {
 	} else {
 		// model enumeration with blocking
 		block := m.ctx.Bool(true)
-		for len(feas) <= 64 {
+		for len(feas) <= maxVals {
 			r, model := m.checkValue(t, block)
 			if r != RSat {
+				if r == RUnknown && soft {
+					return 0, false
+				}
 				if r == RUnknown {
-					m.unsupported("cannot enumerate values of symbolic index/size (solver unknown)")
+					// fall back to scanning the interval; unknown counts as feasible
+					if hi-lo > 1024 {
+						m.unsupported("cannot enumerate values of symbolic index/size (solver unknown)")
+					}
+					feas = feas[:0]
+					for v := lo; v <= hi; v++ {
+						rr, _ := m.check(eqc(v), false)
+						if rr != RUnsat {
+							feas = append(feas, v)
+						}
+					}
 				}
 				break
 			}
 			feas = append(feas, model)
 			block = m.ctx.And(block, m.ctx.Not(eqc(model)))
 		}
-		if len(feas) > 64 {
+		if len(feas) > maxVals {
+			if soft {
+				return 0, false
+			}
 			panic(pathEnd{"unwind", "more than 64 feasible values for a symbolic size/index at " + m.position()})
 		}
 		sort.Ints(feas)
@@ -335,19 +506,85 @@ func (m *Machine) chooseInt(t *Term, lo, hi int) int {
 	}
 	m.recordDecision(feas[0], false)
 	m.assertPC(eqc(feas[0]))
-	return feas[0]
+	m.ctx.subst[t] = m.ctx.IntI(t.Sort, int64(feas[0]))
+	return feas[0], true
+}
+
+// concretizeCmp: for a branch on a comparison between a constant and a compound term with a
+// narrow interval, fork on the term's value instead of on the boolean: later uses of the same
+// term (loop bounds, offsets) then fold to constants.
+func (m *Machine) concretizeCmp(c *Term) (*Term, bool) {
+	cmp := c
+	if cmp.Op == OBNot {
+		cmp = cmp.Args[0]
+	}
+	if cmp.Op != OLt && cmp.Op != OLe && cmp.Op != OEq {
+		return nil, false
+	}
+	a, b := cmp.Args[0], cmp.Args[1]
+	var t *Term
+	switch {
+	case a.IsConst() && !b.IsConst():
+		t = b
+	case b.IsConst() && !a.IsConst():
+		t = a
+	default:
+		return nil, false
+	}
+	if t.Sort.K != KInt || t.Op == OVar || t.Op == OConst {
+		return nil, false
+	}
+	iv := m.ctx.IV(t)
+	w := new(big.Int).Sub(iv.Hi, iv.Lo)
+	if !w.IsInt64() || w.Int64() > 256 || !iv.Lo.IsInt64() {
+		return nil, false
+	}
+	if m.noConcretize[t] {
+		return nil, false
+	}
+	// during prefix replay the recorded decision kinds must line up: a soft failure is
+	// deterministic (same queries), so replay takes the same route.
+	v, ok := m.chooseIntX(t, int(iv.Lo.Int64()), int(iv.Hi.Int64()), 16, true)
+	if !ok {
+		m.noConcretize[t] = true
+		return nil, false
+	}
+	_ = v
+	// rebuild the comparison: constructors substitute t
+	var r *Term
+	switch cmp.Op {
+	case OLt:
+		r = m.ctx.Lt(a, b)
+	case OLe:
+		r = m.ctx.Le(a, b)
+	default:
+		r = m.ctx.Eq(a, b)
+	}
+	if c.Op == OBNot {
+		r = m.ctx.Not(r)
+	}
+	return r, true
 }
 
 // checkValue finds a model value for t under PC ∧ extra.
 func (m *Machine) checkValue(t *Term, extra *Term) (SatResult, int) {
-	probe := m.ctx.Var(fmt.Sprintf("$probe%d", m.fresh), t.Sort)
-	m.fresh++
-	r, model := m.check(m.ctx.And(extra, m.ctx.Eq(probe, t)), true)
+	tn := m.em.Name(t)
+	en := m.em.Name(extra)
+	m.sol.SetTimeout(m.cfg.FeasTimeoutMs)
+	r, model, errs := m.sol.Check(m.em.take(), []string{en}, true, []string{tn})
+	if errs != "" {
+		m.res.Incon = append(m.res.Incon, "solver error: "+errs)
+		return RUnknown, 0
+	}
 	if r != RSat {
 		return r, 0
 	}
-	bi, ok := new(big.Int).SetString(model[probe.Name], 10)
-	if !ok || !bi.IsInt64() {
+	bi, ok := parseSMTInt(model[tn])
+	if !ok {
+		return RUnknown, 0
+	}
+	bi = wrapBig(bi, t.Sort)
+	if !bi.IsInt64() {
 		return RUnknown, 0
 	}
 	return RSat, int(bi.Int64())
@@ -488,6 +725,12 @@ func (m *Machine) doAssert(c *Term, label string) {
 		m.sample(label, "unknown", t0)
 	}
 	// continue under the assumption that it holds
+	if r == RUnsat && len(m.knownActive) == 0 {
+		// implied by the path condition: nothing to assert
+		m.pc = append(m.pc, c)
+		m.ctx.tighten(c)
+		return
+	}
 	rn, _ := m.check(c, false)
 	if rn == RUnsat {
 		panic(pathEnd{"violation-stop", label})
@@ -508,3 +751,5 @@ func (m *Machine) doAssume(c *Term) {
 	}
 	m.assertPC(c)
 }
+
+var slowLog func(string)
